@@ -552,7 +552,7 @@ func (e *Enc) discharge(o *Obl, fkey string, opts *VerifyOpts) *OblResult {
 		writeFile(f, e.buildQueryX(o, extra, true, relaxed))
 		sr := runQuery(f, opts.TimeoutS, agree, nil)
 		if sr.Status == "unknown" && !relaxed {
-			sr2 := runQuery(f, opts.TimeoutS*3, agree, nil)
+			sr2 := runQueryRetry(f, opts.TimeoutS*3, agree)
 			sr2.Millis += sr.Millis
 			sr = sr2
 		}
